@@ -265,10 +265,111 @@ pub fn reference_step(ins: &Instruction, st: &State) -> Expect {
                 (_, V::F(_)) => Expect::Fail("return to a felt".into()),
             }
         }
-        InstructionBody::QM31AssertEq(_) | InstructionBody::Blake2sCompress(_) => {
-            Expect::Unmodelled("opcode extension".into())
+        InstructionBody::QM31AssertEq(_) => Expect::Unmodelled("opcode extension".into()),
+        InstructionBody::Blake2sCompress(i) => {
+            // blake2s[state, message, byte_count, finalize] => [ap]; ap++ is part of the instruction.
+            let u32_at = |a: (isize, usize)| -> Result<u32, String> {
+                match st.mem.get(&a) {
+                    Some(V::F(x)) => x.to_u32().ok_or_else(|| "word does not fit 32 bits".to_string()),
+                    Some(V::P(..)) => Err("word is a pointer".into()),
+                    None => Err("word unknown".into()),
+                }
+            };
+            let ptr_at = |a: (isize, usize)| -> Result<(isize, usize), String> {
+                match st.mem.get(&a) {
+                    Some(V::P(s, o)) => Ok((*s, *o)),
+                    Some(V::F(_)) => Err("pointer operand is a felt".into()),
+                    None => Err("pointer operand unknown".into()),
+                }
+            };
+            let run = || -> Result<Vec<((isize, usize), V)>, String> {
+                let count_a = addr(st, &i.byte_count).ok_or("negative address")?;
+                let state_a = addr(st, &i.state).ok_or("negative address")?;
+                let msg_a = addr(st, &i.message).ok_or("negative address")?;
+                // All three operand cells must be known before anything else.
+                for a in [count_a, state_a, msg_a] {
+                    if !st.mem.contains_key(&a) {
+                        return Err("operand unknown".into());
+                    }
+                }
+                let counter = u32_at(count_a)?;
+                let sp = ptr_at(state_a)?;
+                let mut h = [0u32; 8];
+                for (k, w) in h.iter_mut().enumerate() {
+                    *w = u32_at((sp.0, sp.1 + k))?;
+                }
+                let mp = ptr_at(msg_a)?;
+                let mut m = [0u32; 16];
+                for (k, w) in m.iter_mut().enumerate() {
+                    *w = u32_at((mp.0, mp.1 + k))?;
+                }
+                let out = ptr_at((EXEC, st.ap))?;
+                let new = blake2s_compress_ref(&h, &m, counter, if i.finalize { 0xffff_ffff } else { 0 });
+                let mut writes = vec![];
+                for (k, w) in new.iter().enumerate() {
+                    let a = (out.0, out.1 + k);
+                    let v = V::F(BigInt::from(*w));
+                    match st.mem.get(&a) {
+                        Some(old) if *old != v => return Err("output cell already holds another value".into()),
+                        _ => writes.push((a, v)),
+                    }
+                }
+                Ok(writes)
+            };
+            match run() {
+                Ok(writes) => Expect::Ok { pc: next_pc, ap: st.ap + 1, fp: st.fp, writes },
+                Err(e) => Expect::Fail(e),
+            }
         }
     }
+}
+
+/// BLAKE2s compression function F (RFC 7693, section 3.2) with t = (t0, 0), f = (f0, 0); written
+/// from the RFC, independent of the VM's implementation.
+pub fn blake2s_compress_ref(h: &[u32; 8], m: &[u32; 16], t0: u32, f0: u32) -> [u32; 8] {
+    const IV: [u32; 8] = [0x6A09E667, 0xBB67AE85, 0x3C6EF372, 0xA54FF53A, 0x510E527F, 0x9B05688C, 0x1F83D9AB, 0x5BE0CD19];
+    const SIGMA: [[usize; 16]; 10] = [
+        [0, 1, 2, 3, 4, 5, 6, 7, 8, 9, 10, 11, 12, 13, 14, 15],
+        [14, 10, 4, 8, 9, 15, 13, 6, 1, 12, 0, 2, 11, 7, 5, 3],
+        [11, 8, 12, 0, 5, 2, 15, 13, 10, 14, 3, 6, 7, 1, 9, 4],
+        [7, 9, 3, 1, 13, 12, 11, 14, 2, 6, 5, 10, 4, 0, 15, 8],
+        [9, 0, 5, 7, 2, 4, 10, 15, 14, 1, 11, 12, 6, 8, 3, 13],
+        [2, 12, 6, 10, 0, 11, 8, 3, 4, 13, 7, 5, 15, 14, 1, 9],
+        [12, 5, 1, 15, 14, 13, 4, 10, 0, 7, 6, 3, 9, 2, 8, 11],
+        [13, 11, 7, 14, 12, 1, 3, 9, 5, 0, 15, 4, 8, 6, 2, 10],
+        [6, 15, 14, 9, 11, 3, 0, 8, 12, 2, 13, 7, 1, 4, 10, 5],
+        [10, 2, 8, 4, 7, 6, 1, 5, 15, 11, 9, 14, 3, 12, 13, 0],
+    ];
+    let mut v = [0u32; 16];
+    v[..8].copy_from_slice(h);
+    v[8..].copy_from_slice(&IV);
+    v[12] ^= t0;
+    v[14] ^= f0;
+    fn g(v: &mut [u32; 16], a: usize, b: usize, c: usize, d: usize, x: u32, y: u32) {
+        v[a] = v[a].wrapping_add(v[b]).wrapping_add(x);
+        v[d] = (v[d] ^ v[a]).rotate_right(16);
+        v[c] = v[c].wrapping_add(v[d]);
+        v[b] = (v[b] ^ v[c]).rotate_right(12);
+        v[a] = v[a].wrapping_add(v[b]).wrapping_add(y);
+        v[d] = (v[d] ^ v[a]).rotate_right(8);
+        v[c] = v[c].wrapping_add(v[d]);
+        v[b] = (v[b] ^ v[c]).rotate_right(7);
+    }
+    for s in SIGMA.iter() {
+        g(&mut v, 0, 4, 8, 12, m[s[0]], m[s[1]]);
+        g(&mut v, 1, 5, 9, 13, m[s[2]], m[s[3]]);
+        g(&mut v, 2, 6, 10, 14, m[s[4]], m[s[5]]);
+        g(&mut v, 3, 7, 11, 15, m[s[6]], m[s[7]]);
+        g(&mut v, 0, 5, 10, 15, m[s[8]], m[s[9]]);
+        g(&mut v, 1, 6, 11, 12, m[s[10]], m[s[11]]);
+        g(&mut v, 2, 7, 8, 13, m[s[12]], m[s[13]]);
+        g(&mut v, 3, 4, 9, 14, m[s[14]], m[s[15]]);
+    }
+    let mut out = [0u32; 8];
+    for i in 0..8 {
+        out[i] = h[i] ^ v[i] ^ v[i + 8];
+    }
+    out
 }
 
 // ---------------------------------------------------------------------------------------------
@@ -492,6 +593,31 @@ pub fn shapes() -> Vec<(String, Box<dyn Fn(&mut Rng) -> Instruction + Send + Syn
         }
     }
     out.push(("ret".into(), Box::new(|_| Instruction::new(InstructionBody::Ret(RetInstruction {}), false))));
+    // blake2s: every register combination of the three operands, with and without finalize
+    // (ap++ is mandatory for this instruction).
+    for rs in 0..2 {
+        for rc in 0..2 {
+            for rm in 0..2 {
+                for finalize in [false, true] {
+                    out.push((
+                        format!("blake2s state-{} count-{} message-{}{}", regs[rs], regs[rc], regs[rm], if finalize { " finalize" } else { "" }),
+                        Box::new(move |g| {
+                            // Small offsets mostly, so that the operand cells are distinct from
+                            // each other and from [ap]; extreme ones sometimes.
+                            let mut c = |r: usize, g: &mut Rng| CellRef {
+                                register: if r == 0 { Register::AP } else { Register::FP },
+                                offset: if g.chance(1, 5) { *g.pick(OFFSETS) } else { g.range(-30, -1) as i16 },
+                            };
+                            Instruction::new(
+                                InstructionBody::Blake2sCompress(Blake2sCompressInstruction { state: c(rs, g), byte_count: c(rc, g), message: c(rm, g), finalize }),
+                                true,
+                            )
+                        }),
+                    ));
+                }
+            }
+        }
+    }
     out
 }
 
@@ -537,7 +663,11 @@ fn touched_cells(ins: &Instruction, st: &State) -> Vec<(isize, usize)> {
             }
         }
         InstructionBody::Ret(_) => {}
-        InstructionBody::Blake2sCompress(_) => {}
+        InstructionBody::Blake2sCompress(i) => {
+            add(&i.byte_count);
+            add(&i.state);
+            add(&i.message);
+        }
     }
     v
 }
@@ -645,6 +775,72 @@ pub fn random_state(ins: &Instruction, rng: &mut Rng) -> State {
             st.mem.insert((EXEC, st.fp - 1), V::P(0, 50_000 + rng.below(3000)));
         } else if rng.bool() {
             st.mem.insert((EXEC, st.fp - 1), random_value(rng, 5));
+        }
+    }
+    if let InstructionBody::Blake2sCompress(i) = &ins.body {
+        let word = |rng: &mut Rng| -> V {
+            V::F(match rng.below(8) {
+                0 => BigInt::from(0),
+                1 => BigInt::from(u32::MAX),
+                // Rarely: not a 32-bit word.
+                2 if rng.chance(1, 6) => BigInt::from(1u64 << 32),
+                _ => BigInt::from(rng.next_u64() as u32),
+            })
+        };
+        // Output pointer at [ap].
+        if rng.chance(19, 20) {
+            st.mem.insert((EXEC, st.ap), V::P(3, 40_000 + rng.below(2000)));
+        } else if rng.bool() {
+            st.mem.insert((EXEC, st.ap), random_value(rng, 1));
+        } else {
+            st.mem.remove(&(EXEC, st.ap));
+        }
+        // Operand cells, in an order that makes aliasing cells end up in any of the roles.
+        let mut roles = [0usize, 1, 2];
+        for k in (1..3).rev() {
+            roles.swap(k, rng.below(k + 1));
+        }
+        for role in roles {
+            match role {
+                0 => {
+                    if let Some(a) = addr(&st, &i.byte_count) {
+                        if rng.chance(19, 20) {
+                            st.mem.insert(a, word(rng));
+                        }
+                    }
+                }
+                r => {
+                    let (c, n) = if r == 1 { (&i.state, 8) } else { (&i.message, 16) };
+                    if let Some(a) = addr(&st, c) {
+                        if rng.chance(19, 20) {
+                            let base = 42_000 + rng.below(3000);
+                            st.mem.insert(a, V::P(2, base));
+                            for k in 0..n {
+                                if rng.chance(1, 150) {
+                                    continue;
+                                }
+                                st.mem.insert((2, base + k), word(rng));
+                            }
+                        }
+                    }
+                }
+            }
+        }
+        // Rarely an output cell is already written.
+        if rng.chance(1, 12) {
+            if let Some(V::P(s, o)) = st.mem.get(&(EXEC, st.ap)).cloned() {
+                let k = rng.below(8);
+                let v = if rng.bool() {
+                    // ... with exactly the value the instruction writes (allowed).
+                    match reference_step(ins, &st) {
+                        Expect::Ok { writes, .. } => writes.get(k).map(|w| w.1.clone()).unwrap_or(V::F(BigInt::from(7))),
+                        _ => V::F(BigInt::from(7)),
+                    }
+                } else {
+                    V::F(BigInt::from(rng.below(1000)))
+                };
+                st.mem.insert((s, o + k), v);
+            }
         }
     }
     if matches!(ins.body, InstructionBody::Call(_)) && rng.chance(1, 10) {
@@ -759,7 +955,12 @@ pub fn c16_worker(ctx: &mut Ctx) {
             for s in 0..states {
                 let st = random_state(&ins, &mut rng);
                 match guarded(|| compare_step(&ins, &st)) {
-                    Ok(Ok(true)) => compared += 1,
+                    Ok(Ok(true)) => {
+                        compared += 1;
+                        if matches!(ins.body, InstructionBody::Blake2sCompress(_)) {
+                            ctx.count(if matches!(reference_step(&ins, &st), Expect::Ok { .. }) { "blake2s.steps_succeeding" } else { "blake2s.steps_failing" }, 1);
+                        }
+                    }
                     Ok(Ok(false)) => ctx.count("states_unmodelled", 1),
                     Ok(Err(e)) => {
                         ctx.violation(
